@@ -175,6 +175,19 @@ CHECKS.update({
     ),
 })
 
+CHECKS.update({
+    "C11": dict(
+        text="Lean theorems over the joint system (client session, server session, two in-order byte pipes, ghost logs): for every admissible "
+             "history — any interleaving of calls, partial flushes and partial deliveries — (1) stream integrity: messages handed to each side ++ "
+             "messages still in flight (residue ++ pipe ++ unflushed output, which always parse back completely) = messages the peer sent, in order, "
+             "as equal values; (2) no protocol error other than after the client's unbind; (3) at quiescence both sides agree on the state class "
+             "(BEFORE_OPEN ≈ OPENED) and on the operations in progress. Full byte-granular statement (not only message-granular). Admissibility = "
+             "calls accepted, responses of the matching kind, no server-initiated termination.",
+        technique="Lean 4 proof (channel invariant + bookkeeping invariant over ghost logs, induction over the history) + correspondence on joint histories",
+        ref="DESIGN.md §4 C11",
+    ),
+})
+
 NOT_YET = {
 }
 
